@@ -590,7 +590,7 @@ fn run_history(args: &Args, hist: u64, seed: u64, n_ops: u64, out: &Mutex<Out>) 
 
     for opn in 0..n_ops {
         let x = *rng.pick(&["b", "c", "d", "e", "b", "c", "e", "a"]);
-        let kind = if opn + 1 == n_ops { 6 } else { rng.weighted(&[22, 26, 12, 6, 8, 12, 4, 4, if rollshrink_mode { 6 } else { 0 }, if limits_mode { 6 } else { 0 }, if stuck_mode { 5 } else { 0 }]) };
+        let kind = if opn + 1 == n_ops { 6 } else if opn == 4 || opn == 13 { 11 } else { rng.weighted(&[22, 26, 12, 6, 8, 12, 4, 4, if rollshrink_mode { 6 } else { 0 }, if limits_mode { 6 } else { 0 }, if stuck_mode { 5 } else { 0 }]) };
         since_settle += 1;
         let before = snapshot(&sys);
         let mut already_emitted = false;
@@ -807,6 +807,32 @@ fn run_history(args: &Args, hist: u64, seed: u64, n_ops: u64, out: &Mutex<Out>) 
                         for _ in 0..2 { let _ = do_sync(&sys, &mut it, "a", "b", &op, hist, &mut marks, out); }
                     }
                 }
+                (op, Ok(()))
+            }
+            11 => { // in every history: a child is suspended, its entitlement shrinks or grows meanwhile, and it comes back -
+                    // by the operator's unsuspend or by calling in (the parent unsuspends it before answering)
+                already_emitted = true;
+                let variant = (hist * 2 + if opn == 13 { 1 } else { 0 }) % 4;
+                let (shrink, explicit) = (variant % 2 == 0, variant < 2);
+                let (p, x) = *rng.pick(&[("b", "c"), ("c", "e"), ("a", "d"), ("a", "b")]);
+                let op = json!({"op": "suspend_cycle", "parent": p, "child": x, "entitlement": if shrink { "shrink" } else { "grow" }, "unsuspend": if explicit { "explicit" } else { "child calls in" }});
+                for _ in 0..2 { let _ = do_sync(&sys, &mut it, p, x, &op, hist, &mut marks, out); }
+                let step = |f: &dyn Fn(&Sys) -> Result<(), String>, it: &mut It, marks: &mut Marks| { let b = snapshot(&sys); let r = f(&sys); emit_cmd_cases(&sys, it, &b, &after(&sys), &op, hist, marks, out); r };
+                let ent = cur_ent(&sys, p, x);
+                let held = sys.ca(p).ok().map(|c| { let j = to_json(&c); j["resources"].as_object().map(|o| o.values().map(|rc| { let t = keystate_tag(rc); match t.as_str() {
+                    "active" => res_json_mask(&rc["key_state"]["active"]["incoming_cert"]["resources"]),
+                    "roll_pending" | "roll_new" => res_json_mask(&rc["key_state"][t.as_str()][1]["incoming_cert"]["resources"]),
+                    "roll_old" => res_json_mask(&rc["key_state"]["roll_old"][0]["incoming_cert"]["resources"]), _ => 0 } }).fold(0, |a, b| a | b)).unwrap_or(0) }).unwrap_or(0);
+                let ent_atoms: Vec<u64> = (0..8).filter(|i| ent & atoms(1 << i) != 0).collect();
+                let free_atoms: Vec<u64> = (0..8).filter(|i| held & atoms(1 << i) == atoms(1 << i) && ent & atoms(1 << i) == 0).collect();
+                let new_ent = if !shrink && !free_atoms.is_empty() { ent | atoms(1 << *rng.pick(&free_atoms)) }
+                    else if ent_atoms.len() >= 2 { ent & !atoms(1 << *rng.pick(&ent_atoms)) }
+                    else if ent & !0xFFFF_0000_0000 != 0 { ent & !0xFFFF_0000_0000 } else { ent };
+                if step(&|s| s.child_suspend(p, x, true).map_err(|e| e.to_string()), &mut it, &mut marks).is_ok() && new_ent != ent && new_ent != 0 {
+                    let _ = step(&|s| s.update_child_resources(p, x, mask_to_rs(new_ent)).map_err(|e| e.to_string()), &mut it, &mut marks);
+                }
+                if explicit { let _ = step(&|s| s.child_suspend(p, x, false).map_err(|e| e.to_string()), &mut it, &mut marks); }
+                for _ in 0..3 { let _ = do_sync(&sys, &mut it, p, x, &op, hist, &mut marks, out); }
                 (op, Ok(()))
             }
             _ => { // --stuck: candidate finding F02d (errors of a local parent never become RFC 6492 error responses,
